@@ -395,7 +395,7 @@ var c18cli = &h.Campaign[CLICase]{
 // The full cross product of put flags and input sources over representative inputs.
 func TestC18CLIMatrix(t *testing.T) {
 	h.FirstShardOnly(t)
-	rec := h.NewRec("C18", "cli-matrix", "every combination of --verbatim x --trim-space x --empty-ok x {--from-file, pipe} (16) over 13 representative inputs (empty, plain, ASCII and Unicode surrounding whitespace, whitespace only, invalid UTF-8 with and without surrounding whitespace, NUL, look-alike non-whitespace, 70 KB text with trailing newline, 70 KB binary): complete enumeration; non-trivial as in the cli sub-campaign; distinct by (flags, source, input)")
+	rec := h.NewRec("C18", "cli-matrix", "every combination of --verbatim x --trim-space x --empty-ok x {--from-file, pipe} (16) over 14 representative inputs (empty, plain, ASCII and Unicode surrounding whitespace, whitespace only, invalid UTF-8 with and without surrounding whitespace, NUL, look-alike non-whitespace, 70 KB text with trailing newline, 70 KB binary, 3 MiB+17 binary): complete enumeration; non-trivial as in the cli sub-campaign; distinct by (flags, source, input)")
 	defer rec.Flush()
 	big := bytes.Repeat([]byte("0123456789abcdef"), 4400)
 	inputs := []ByteCase{
@@ -403,6 +403,7 @@ func TestC18CLIMatrix(t *testing.T) {
 		{Class: "ws-only", Val: []byte(" \n\t")}, {Class: "invalid-utf8", Val: []byte("\xffabc")}, {Class: "invalid-utf8-ws", Val: []byte(" \n\xffabc\n")},
 		{Class: "nul", Val: []byte("a\x00b\x00")}, {Class: "nul", Val: []byte(" a\x00b\n")}, {Class: "near-ws", Val: []byte("\u200bx\ufeff")}, {Class: "ws-text", Val: []byte("-----BEGIN KEY-----\nabc\n-----END KEY-----\n")},
 		{Class: "big", Val: append(append([]byte{}, big...), '\n')}, {Class: "big", Val: append([]byte{0xff, 0x00}, big...)},
+		{Class: "big", Val: append([]byte{0xfe}, bytes.Repeat([]byte("0123456789abcdef"), 3*65536+1)...)}, // 3 MiB + 17 bytes
 	}
 	var cases []CLICase
 	for _, in := range inputs {
